@@ -345,6 +345,9 @@ def generated() -> dict[str, bytes]:
     g["gen/emptymeta.odt"] = _rezip(g["gen/a.odt"], {"meta.xml": empty_meta.encode()})
     g["gen/emptymeta.ods"] = _rezip(g["gen/a.ods"], {"meta.xml": empty_meta.encode()})
     g["gen/a.epub"] = _epub()
+    zin = zipfile.ZipFile(io.BytesIO(g["gen/a.epub"]))
+    g["gen/rights.epub"] = _zip([(zi.filename, zin.read(zi)) for zi in zin.infolist()] +
+                                [("META-INF/rights.xml", b'<?xml version="1.0"?><adept:rights xmlns:adept="http://ns.adobe.com/adept"><licenseToken/></adept:rights>')])
     g["gen/a.eml"] = _eml()
     g["gen/att.eml"] = _eml([("note.txt", b"attached text\n"), ("doc.docx", g["gen/a.docx"]), ("blob.bin", b"\x00\x01\x02")])
     g["gen/a.mbox"] = _mbox()
